@@ -35,6 +35,11 @@ def run(ctx):
     ctx.rule('C11.f-round-starts-clean', 'every round starts with an empty received bitmap and zero counters (implicit and explicit reset), so that which shards count as given depends on this round only (clause shared with C05.a/b)')
     ctx.guard('C11.analysable', ctx.shared, {'X.full': 'C11.f-round-starts-clean', 'X.recv': 'C11.f-round-starts-clean', 'X.drop': 'C11.f-round-starts-clean'},
               resetrules.check_reset_discipline, ctx, ctx.facts(cfgs[0]), cfgs[0], 'X.drop', 'X.recv', 'X.full')
+    ctx.rule('C11.j-tables-complete', 'in-place passes over the fixed-size tables cover the whole table: the entries for the highest positions are read only when shards at those positions are among those given (clause shared with C08.f)')
+    ctx.rule('C11.k-every-position-defined', 'before the first transform every position of the decoder\'s buffer is either a given shard (multiplied) or zeroed, whichever shards were given: a position that was not received never keeps data of an earlier round (clause shared with C05.d)')
+    from . import c08 as c08_
+    ctx.guard('C11.analysable', ctx.shared, {'C08.f-table-passes-cover-the-table': 'C11.j-tables-complete'}, c08_.table_passes_cover, ctx, ctx.facts(cfgs[0]), cfgs[0])
+    ctx.guard('C11.analysable', ctx.shared, {'C05.d-decoder-tiling': 'C11.k-every-position-defined'}, c05.tiling_rule, ctx, ctx.facts(cfgs[0]), cfgs[0])
     ctx.rule('C11.i-final-transform-covers-revealed', 'the last FFT of a decoder is asked for at least the positions that are read back afterwards (the revealed originals may sit anywhere in their range, whichever shards were given): reveal range within [pos, pos + truncated_size), by linear arithmetic with x <= next_power_of_two(x)')
     ctx.rule('C11.h-sufficiency-on-counts', 'whether the shards given suffice is judged by original_received + recovery_received < original_count on the round\'s counters (a superset of a sufficient set is sufficient), and each error of the add/decode path is governed by its documented condition (clause shared with C06.b)')
     from . import c06
@@ -42,6 +47,9 @@ def run(ctx):
     ctx.rule('C11.g-one-locator-evaluation', 'the erasure locator every decoder derives from the bitmap is evaluated by the one shared eval_poly, whatever engine is used (clause shared with C03.d)')
     from . import c03
     ctx.guard('C11.analysable', ctx.shared, {'C03.d-one-eval-poly': 'C11.g-one-locator-evaluation'}, c03.eval_poly, ctx, ctx.facts(cfgs[0]), cfgs[0])
+    ctx.rule('C11.l-engines-run-one-schedule', 'the truncated transforms, whose truncation depends on which shards were given, are the reference schedule in every engine: a surplus shard or a different set does not change the result on one engine only (clause shared with C03.a)')
+    for c_ in ('x86_64', 'aarch64'):
+        ctx.guard('C11.analysable', ctx.shared, {'C03.a-schedule-siblings': 'C11.l-engines-run-one-schedule'}, c03.schedules, ctx, ctx.facts(c_), c_)
     for cfg in cfgs:
         facts = ctx.facts(cfg)
         ctx.guard('C11.analysable', add_effects, ctx, facts, cfg)
@@ -439,7 +447,7 @@ def final_transform_covers(ctx, facts, cfg):
         last = max(ffts, key=lambda e: e['order'])
         a = last['node']['args']
         data = hcanon(a[0], last['env'])
-        pos, trunc = hcanon(a[1], last['env']), hcanon(a[3], last['env'])
+        pos, trunc = (core.inline_calls(hcanon(a[x], last['env']), facts) for x in (1, 3))
         reveals = []
         for e in ev.events:
             if e['kind'] != 'for' or e['order'] < last['order']:
@@ -456,8 +464,8 @@ def final_transform_covers(ctx, facts, cfg):
             uses = core.hir_find(e['body'], lambda m: m.get('k') == 'index' and hcanon(m['idx']) == ('local', ivar) and root(hcanon(m['base'], e['env'])) == root(data))
             if not uses:
                 continue
-            lo = hcanon(cl[1], e['env']) if cl[1] is not None else ('const', 0)
-            hi = hcanon(cl[2], e['env'])
+            lo = core.inline_calls(hcanon(cl[1], e['env']), facts) if cl[1] is not None else ('const', 0)
+            hi = core.inline_calls(hcanon(cl[2], e['env']), facts)
             reveals.append((lo, hi, e['node'].get('line')))
         if not reveals:
             ctx.violation(R, 'no-reveal', '%s has no loop over positions after its final FFT' % p, site=fn.span, fn=p, cfg=cfg)
